@@ -22,8 +22,24 @@ fn ew_summary(rule: &str, bounds: serde_json::Value) -> Summary {
     Summary { rule: rule.to_string(), bounds, assumptions: A_EW.iter().map(|s| s.to_string()).collect(), witness_names: EW_WITNESSES.to_vec(), extra: json!({}), exhaustive: true }
 }
 
-fn sc(tag: &str, cfg: &EwCfg, script: Vec<EwOp>, env: EwEnv, d: usize, oracles: u32) -> Scenario {
-    ew_scenario(EwSpec { tag: tag.to_string(), cfg: cfg.clone(), script: Arc::new(script), env, d, oracles, n_raw: 2 })
+fn sc(tag: &str, cfg: &EwCfg, script: Vec<EwOp>, env: EwEnv, d: usize, oracles: u32) -> EwSpec {
+    EwSpec { tag: tag.to_string(), cfg: cfg.clone(), script: Arc::new(script), env, d, oracles, n_raw: 2 }
+}
+
+/// Own scenarios plus the scenarios of the other endpoint-world families run with this property's oracle.
+fn assemble(own: Vec<EwSpec>, custom: Vec<Scenario>, quick: bool, me: &str, mask: u32) -> Vec<Scenario> {
+    let mut scs: Vec<Scenario> = own.into_iter().map(ew_scenario).collect();
+    scs.extend(custom);
+    for (fam, f) in [("C07", c07_specs as fn(bool) -> Vec<EwSpec>), ("C08", c08_specs), ("C09", c09_specs), ("C10", c10_specs), ("C17", c17_specs)] {
+        if fam == me { continue; }
+        for mut sp in f(quick) {
+            // the timer grid of C10 is large and only interesting to the timer oracle; the others take a cross-section of it
+            if fam == "C10" && !(sp.tag.contains("handshake") || sp.tag.contains("blackout")) { continue; }
+            sp.oracles = mask; sp.tag = format!("{}.pool.{}", me, sp.tag);
+            scs.push(ew_scenario(sp));
+        }
+    }
+    scs
 }
 
 pub fn fw(f: Frame) -> Vec<u8> { f.write().to_vec() }
@@ -33,8 +49,8 @@ pub fn echo_script(i: usize) -> Vec<EwOp> {
 }
 
 // ------------------------------------------------------------------------------------------------
-pub fn c08(quick: bool) -> PropRun {
-    let mut scs = Vec::new();
+pub fn c08_specs(quick: bool) -> Vec<EwSpec> {
+    let mut scs: Vec<EwSpec> = Vec::new();
     let d = if quick { 2 } else { 3 };
     let menu = |i: usize| vec![Act::CSend(i, 1, SendMode::Unreliable, 20), Act::CDisconnect(i), Act::CDisconnectNow(i), Act::SSend(i, 1, SendMode::Reliable, 2000), Act::SDisconnect(i), Act::SDisconnectNow(i), Act::SDrop(i), Act::Connect(i), Act::Forget(i)];
     let timeouts: &[u64] = if quick { &[3000] } else { &[3000, 20_000] };
@@ -70,14 +86,23 @@ pub fn c08(quick: bool) -> PropRun {
         env.fates = DF_ALL; env.deltas = &[100, 2000]; env.fair_delta = 500; env.long_hold = 4; env.app_menu = vec![Act::SDisconnectNow(0), Act::CDisconnectNow(0), Act::Connect(0)];
         scs.push(sc("C08.full-server", &cfg, script, env, d, EO_C08));
     }
+    let _ = (d, timeouts);
+    scs
+}
+
+pub fn c08(quick: bool) -> PropRun {
+    let d = if quick { 2 } else { 3 };
+    let timeouts: &[u64] = if quick { &[3000] } else { &[3000, 20_000] };
+    let scs = assemble(c08_specs(quick), vec![], quick, "C08", EO_C08);
     PropRun { level: "model_checking", scenarios: scs, units: vec![], replay_case: None, summary: ew_summary(
         "every explored execution's event streams (client: per Client object; server: per address, with Server::drop as a silent end) are run through the reference automaton Connect? Receive* (Disconnect|Error)?",
         json!({"d": d, "application_menu": "send / disconnect / disconnect_now / drop / reconnect from the same address / forget, on either side, at every round of the window", "fates": "deliver/drop/dup/hold2/stale copy 10 rounds later on every datagram", "deltas_ms": [100, 0, 2000, 20000], "active_timeouts_ms": timeouts})) }
 }
 
 // ------------------------------------------------------------------------------------------------
-pub fn c07(quick: bool) -> PropRun {
-    let mut scs = Vec::new();
+pub fn c07_parts(quick: bool) -> (Vec<EwSpec>, Vec<Scenario>) {
+    let mut custom: Vec<Scenario> = Vec::new();
+    let mut scs: Vec<EwSpec> = Vec::new();
     let o = EO_C07 | EO_C08 | EO_ECHO;
     // (a) complete enumeration of the fates of the handshake datagrams (free choices), connect-echo-disconnect-reconnect-echo
     let reconnect = vec![at(0, Act::Connect(0)), after_c(0, 1, Act::CSend(0, 0, SendMode::Reliable, 100)), after_s(0, 1, Act::SSend(0, 0, SendMode::Reliable, 60)),
@@ -123,7 +148,7 @@ pub fn c07(quick: bool) -> PropRun {
         let mut env = EwEnv::basic(0, if sname == "established" { 90 } else { 40 });
         env.fates = DF_NONE; env.deltas = &[100]; env.fair_delta = 500; env.stop_when_done = false;
         if sname != "established" { env.lose_syn = 2; }
-        scs.push(forger_scenario(&format!("C07.forged.{}", sname), cfg, script, env, if quick { 30 } else { 60 }));
+        custom.push(forger_scenario(&format!("C07.forged.{}", sname), cfg, script, env, if quick { 30 } else { 60 }));
     }
     // raw version mismatch
     {
@@ -132,8 +157,16 @@ pub fn c07(quick: bool) -> PropRun {
         let mut script = echo_script(0);
         script.push(at(2, Act::Raw(0, syn(2)))); script.push(at(3, Act::Raw(0, syn(4)))); script.push(at(4, Act::Raw(1, syn(uflow::PROTOCOL_VERSION))));
         let mut env = EwEnv::basic(3, 80); env.fates = DF_LOSS; env.deltas = &[100];
-        scs.push(ew_scenario(EwSpec { tag: "C07.version".into(), cfg, script: Arc::new(script), env, d: 1, oracles: o | EO_C18, n_raw: 2 }));
+        scs.push(EwSpec { tag: "C07.version".into(), cfg, script: Arc::new(script), env, d: 1, oracles: o | EO_C18, n_raw: 2 });
     }
+    (scs, custom)
+}
+
+pub fn c07_specs(quick: bool) -> Vec<EwSpec> { c07_parts(quick).0 }
+
+pub fn c07(quick: bool) -> PropRun {
+    let (own, custom) = c07_parts(quick);
+    let scs = assemble(own, custom, quick, "C07", EO_C07 | EO_C08);
     PropRun { level: "model_checking", scenarios: scs, units: vec![], replay_case: None, summary: ew_summary(
         "handshake ledger over every explored execution: Connect only after the matching nonce was delivered, one Connect per handshake, first data frames start at the exchanged nonces and the echo completes, incompatible configurations are refused with Error(Config); forged handshake frames are checked differentially against the same run without the forgery",
         json!({"handshake_fates": "complete enumeration over SYN/SYN-ACK/ACK/error datagrams (deliver/drop/dup/hold/stale copy)", "d_other": if quick { 2 } else { 3 }, "forced_nonces": ["seeded", "2^32-2, 2^32-1, 0, 2^32-1", "equal nonces on both sides"], "forged_alphabet": "SYN other nonce / other version, ACK wrong nonce, SYN-ACK, error frames of all three kinds from the client's address; SYN-ACK with wrong nonce_ack, error frames with wrong nonce_ack, SYN, ACK from the server's address; at every round"})) }
@@ -207,8 +240,9 @@ fn forger_scenario(tag: &str, cfg: EwCfg, script: Vec<EwOp>, env: EwEnv, window:
 }
 
 // ------------------------------------------------------------------------------------------------
-pub fn c17(quick: bool) -> PropRun {
-    let mut scs = Vec::new();
+pub fn c17_parts(quick: bool) -> (Vec<EwSpec>, Vec<Scenario>) {
+    let mut custom: Vec<Scenario> = Vec::new();
+    let mut scs: Vec<EwSpec> = Vec::new();
     let limits: Vec<(usize, usize)> = if quick { vec![(1, 1), (1, 2), (2, 2), (1, 3), (2, 3)] } else { vec![(1, 1), (1, 2), (1, 3), (2, 2), (2, 3), (2, 4), (3, 3)] };
     for (ma, mt) in limits {
         for nc in [2usize, 3, 4] {
@@ -249,6 +283,14 @@ pub fn c17(quick: bool) -> PropRun {
         env.fates = DF_BASIC; env.fate_types = &[0, 1, 2, 4, 5]; env.deltas = &[100, 2000]; env.fair_delta = 500; env.stop_when_done = false;
         scs.push(sc("C17.reconnect-within-linger", &cfg, script, env, if quick { 1 } else { 2 }, EO_C17 | EO_C08 | EO_C07));
     }
+    (scs, custom)
+}
+
+pub fn c17_specs(quick: bool) -> Vec<EwSpec> { c17_parts(quick).0 }
+
+pub fn c17(quick: bool) -> PropRun {
+    let (own, custom) = c17_parts(quick);
+    let scs = assemble(own, custom, quick, "C17", EO_C17);
     PropRun { level: "model_checking", scenarios: scs, units: vec![], replay_case: None, summary: ew_summary(
         "limit ledger on the server's own event stream and tracked-connection count at every round of every explored execution; all interleavings of the handshake datagrams of 2-3 clients are enumerated completely (free choices), 4 clients deviation-bounded",
         json!({"limits(max_active,max_total)": "(1,1) (1,2) (1,3) (2,2) (2,3) (2,4) (3,3)", "clients": [2, 3, 4], "handshake_fates": "deliver / hold 2 rounds / drop on SYN, SYN-ACK, ACK", "endings": "client disconnect, server disconnect, Server::drop, vanished client (time-out)"})) }
@@ -334,8 +376,9 @@ pub fn c18(quick: bool) -> PropRun {
 }
 
 // ------------------------------------------------------------------------------------------------
-pub fn c10(quick: bool) -> PropRun {
-    let mut scs = Vec::new();
+pub fn c10_parts(quick: bool) -> (Vec<EwSpec>, Vec<Scenario>) {
+    let mut custom: Vec<Scenario> = Vec::new();
+    let mut scs: Vec<EwSpec> = Vec::new();
     let timeouts: &[u64] = if quick { &[1000, 3000, 20_000] } else { &[1000, 3000, 20_000] };
     let keepalives: &[Option<u64>] = &[None, Some(500), Some(2500), Some(5000)];
     let cadences: &[u64] = if quick { &[7, 100, 1000] } else { &[1, 7, 100, 1000] };
@@ -392,6 +435,15 @@ pub fn c10(quick: bool) -> PropRun {
             scs.push(sc(&format!("C10.{}", sname), &cfg, vec![at(0, Act::Connect(0)), after_c(0, 1, Act::CSend(0, 0, SendMode::Reliable, 100)), after_c(0, 4, act)], env, if quick { 1 } else { 2 }, EO_C10));
         }
     }
+    (scs, custom)
+}
+
+pub fn c10_specs(quick: bool) -> Vec<EwSpec> { c10_parts(quick).0 }
+
+pub fn c10(quick: bool) -> PropRun {
+    let (own, custom) = c10_parts(quick);
+    let scs = assemble(own, custom, quick, "C10", EO_C10);
+    let timeouts: &[u64] = &[1000, 3000, 20_000]; let cadences: &[u64] = if quick { &[7, 100, 1000] } else { &[1, 7, 100, 1000] };
     PropRun { level: "model_checking", scenarios: scs, units: vec![], replay_case: None, summary: ew_summary(
         "reference timers (active time-out since the last processed data/ack/sync frame or Connect; 10 resends 2 s apart for handshake and disconnect) are stepped alongside every explored execution and compared at every step: no Error(Timeout) before the deadline, Error(Timeout) in the first step at or after it; idle keep-alive connections are run for 10x the time-out",
         json!({"active_timeouts_ms": timeouts, "keepalive_ms": ["off", 500, 2500, 5000], "cadences_ms": cadences, "handshake_losses": "SYN or SYN-ACK lost 0..11 times", "deviations": "one or two step spacings replaced by 0, 1, 2, 999, 1000, 1001, 1999, 2000, 2001, 3000 ms; permanent blackout from any round of the window"})) }
@@ -404,8 +456,9 @@ fn leak_deltas(cad: u64, extra: &[u64]) -> &'static [u64] {
 }
 
 // ------------------------------------------------------------------------------------------------
-pub fn c09(quick: bool) -> PropRun {
-    let mut scs = Vec::new();
+pub fn c09_parts(quick: bool) -> (Vec<EwSpec>, Vec<Scenario>) {
+    let mut custom: Vec<Scenario> = Vec::new();
+    let mut scs: Vec<EwSpec> = Vec::new();
     let d = if quick { 2 } else { 3 };
     use SendMode::*;
     let loads: Vec<(&str, Vec<(u8, SendMode, usize)>)> = vec![
@@ -431,6 +484,15 @@ pub fn c09(quick: bool) -> PropRun {
             }
         }
     }
+    (scs, custom)
+}
+
+pub fn c09_specs(quick: bool) -> Vec<EwSpec> { c09_parts(quick).0 }
+
+pub fn c09(quick: bool) -> PropRun {
+    let (own, custom) = c09_parts(quick);
+    let scs = assemble(own, custom, quick, "C09", EO_C09 | EO_C08);
+    let d = if quick { 2 } else { 3 };
     PropRun { level: "model_checking", scenarios: scs, units: vec![], replay_case: None, summary: ew_summary(
         "every explored execution: Reliable packets submitted before disconnect() are delivered to the peer before its Disconnect event (unless the peer disconnects itself); once a disconnect request is on the wire both ends report a terminal event within 22 s + one step per retry; nothing after it (C08 automaton)",
         json!({"d": d, "queued_data": "0, 1, 3, 8 packets of mixed modes incl. multi-fragment", "who": "client or server, disconnect() or disconnect_now()", "blackouts": "to server / to client / both, permanent, from every round of the window"})) }
@@ -463,5 +525,5 @@ pub fn survive_scenarios(quick: bool, c11: bool) -> Vec<Scenario> {
         }
         scs.push(sc(&format!("{}.survive.{}", if c11 { "C11" } else { "C02" }, name), &cfg, script, env, if quick { 2 } else { 3 }, if c11 { EO_SURVIVE_C11 } else { EO_SURVIVE_C02 }));
     }
-    scs
+    scs.into_iter().map(ew_scenario).collect()
 }
